@@ -155,9 +155,8 @@ func refPropFilter(f caldav.PropFilter, c rComp) tri {
 	if n == 0 {
 		return triFalse
 	}
-	if hasRange && f.TextMatch != nil {
-		return triOpen // (time-range | text-match) are alternatives in the DTD
-	}
+	// (time-range | text-match) are alternatives in the DTD, but Match takes the public struct, which can carry
+	// both: the statement demands that text-match, time range and parameter filters all hold
 	// RFC 4791 9.7.2: the filter matches if A property of that name satisfies the conditions: with several
 	// instances (ATTENDEE), some instance
 	_ = p
@@ -761,6 +760,32 @@ func c06Recurring() []c06Rec {
 					out = append(out, c06Rec{freq, iv, cnt, dh, rComp{Name: "VCALENDAR", Props: []rProp{{Name: "VERSION", Value: "2.0"}},
 						Children: []rComp{{Name: "VEVENT", HasTime: true, Instances: inst, Props: props}}}})
 				}
+				// all-day series: DTSTART is a DATE; no end (every instance lasts one day), DTEND two days later,
+				// DURATION of one day. DurH is negative: -24 / -48 / -25 (= one day stated as DURATION)
+				day := c06T0
+				date := map[string]string{"VALUE": "DATE"}
+				for _, v := range []int{-24, -48, -25} {
+					step := 24 * time.Hour
+					if freq == "WEEKLY" {
+						step *= 7
+					}
+					length := 24 * time.Hour
+					props := []rProp{{Name: "DTSTART", Value: day.Format("20060102"), Params: date}, {Name: "RRULE", Value: fmt.Sprintf("FREQ=%s;INTERVAL=%d;COUNT=%d", freq, iv, cnt)}}
+					switch v {
+					case -48:
+						length = 48 * time.Hour
+						props = append(props, rProp{Name: "DTEND", Value: day.Add(length).Format("20060102"), Params: date})
+					case -25:
+						props = append(props, rProp{Name: "DURATION", Value: "P1D"})
+					}
+					var inst [][2]int64
+					for k := 0; k < cnt; k++ {
+						s := day.Add(time.Duration(k*iv) * step)
+						inst = append(inst, [2]int64{s.Unix(), s.Add(length).Unix()})
+					}
+					out = append(out, c06Rec{freq, iv, cnt, v, rComp{Name: "VCALENDAR", Props: []rProp{{Name: "VERSION", Value: "2.0"}},
+						Children: []rComp{{Name: "VEVENT", HasTime: true, Instances: inst, Props: props}}}})
+				}
 			}
 		}
 	}
@@ -774,14 +799,14 @@ func c06RecRanges() [][2]time.Time {
 		if d > 4 && d != 6 && d != 7 && d != 8 && d != 13 && d != 14 && d != 15 && d != 28 && d != 29 {
 			continue
 		}
-		for _, h := range []int{8, 9, 10, 12} {
+		for _, h := range []int{0, 8, 9, 10, 12} {
 			pts = append(pts, c06T0.AddDate(0, 0, d).Add(time.Duration(h)*time.Hour))
 		}
 	}
 	var out [][2]time.Time
 	for i, a := range pts {
 		out = append(out, [2]time.Time{a, {}}, [2]time.Time{{}, a})
-		for j := i + 1; j < len(pts) && j <= i+9; j++ {
+		for j := i + 1; j < len(pts) && j <= i+11; j++ {
 			out = append(out, [2]time.Time{a, pts[j]})
 		}
 	}
@@ -951,6 +976,15 @@ func c06Run(r *engine.Run) {
 				w := c06Check(s, "prop-time-range", base+int64(i)*256+128+int64(ei), f, ev.obj, rel)
 				s.Outcome(fmt.Sprintf("prop-time-range/ref=%d", w))
 				s.Nontrivial("S2p/" + rel)
+				// the same range together with a text-match on the property value (both must hold)
+				if ei%4 == i%4 {
+					for ti, tm := range []caldav.TextMatch{{Text: "2020"}, {Text: "NOPE"}, {Text: "2020", NegateCondition: true}, {Text: "NOPE", NegateCondition: true}} {
+						tm := tm
+						f2 := caldav.CompFilter{Name: "VCALENDAR", Comps: []caldav.CompFilter{{Name: "VEVENT", Props: []caldav.PropFilter{{Name: "DTSTART", Start: rg[0], End: rg[1], TextMatch: &tm}}}}}
+						w2 := c06Check(s, "prop-time-range+text", base+int64(i)*256+128+int64(ei), f2, ev.obj, fmt.Sprintf("%s.text=%d", rel, ti))
+						s.Outcome(fmt.Sprintf("prop-time-range+text/ref=%d", w2))
+					}
+				}
 			}
 		})
 		base += int64(len(ranges)) * 256
@@ -967,7 +1001,7 @@ func c06Run(r *engine.Run) {
 			f := caldav.CompFilter{Name: "VCALENDAR", Comps: []caldav.CompFilter{{Name: "VEVENT", Start: rg[0], End: rg[1]}}}
 			// class: relation to the nearest instance that decides the verdict
 			class := fmt.Sprintf("dur=%dh", rc.DurH)
-			w := c06Check(s, "recurrence", base+int64(i)*64+int64(ei), f, rc.obj, class)
+			w := c06Check(s, "recurrence", base+int64(i)*128+int64(ei), f, rc.obj, class)
 			s.Outcome(fmt.Sprintf("recurrence/dur=%d/ref=%d", rc.DurH, w))
 			s.Nontrivial(fmt.Sprintf("S3/%d/%d", i, ei))
 			if i == 33 && ei == 20 {
@@ -975,7 +1009,7 @@ func c06Run(r *engine.Run) {
 			}
 		}
 	})
-	base += int64(len(rr)) * 64
+	base += int64(len(rr)) * 128
 
 	// sub-space 4: Filter() contract
 	pool := []rComp{objs[1], objs[2], objs[3], objs[5], objs[12]}
